@@ -95,12 +95,22 @@ impl Parser {
                 return self.parse_impl(cursor, payload);
             }
 
+            // If we're resuming a frame whose leading bytes (start bytes or the entire header)
+            // were consumed from the cursor of a previous call, then the rollback position
+            // of the transaction is already beyond the first byte of the failed frame
+            let resumed = !matches!(self.state, ParseState::FindSync1);
+
             let res = cursor.transaction(|cur| self.parse_impl(cur, payload));
 
             match res {
                 Ok(x) => return Ok(x),
                 Err(_) => {
-                    let _ = cursor.read_u8(); // advance one byte
+                    if !resumed {
+                        // the failed frame began at the rollback position, advance one byte
+                        let _ = cursor.read_u8();
+                    }
+                    // otherwise, the byte at the rollback position has never been examined
+                    // as the possible start of a frame, so it must not be skipped
                     self.reset();
                     // goto next iteration
                 }
